@@ -60,7 +60,9 @@ func (c *SubscriptionManager) AddSubscription(remoteDevice api.DeviceRemoteInter
 	defer c.mux.Unlock()
 
 	for _, item := range c.subscriptionEntries {
-		if reflect.DeepEqual(item.ServerFeature, serverFeature) && reflect.DeepEqual(item.ClientFeature, clientFeature) {
+		if reflect.DeepEqual(item.ServerFeature, serverFeature) &&
+			item.ClientFeature.Device().Ski() == clientFeature.Device().Ski() &&
+			reflect.DeepEqual(item.ClientFeature.Address(), clientFeature.Address()) {
 			return fmt.Errorf("requested subscription is already present")
 		}
 	}
